@@ -72,6 +72,10 @@ def main(tier, seed):
     run.assumptions += ["the opcode / operand-width table of BytecodeWF.tla is transcribed from the instruction set and is the specification's own",
                         "every byte of every compiled program is decoded (not only the executed path); programs come from all generator profiles, "
                         "including those that trigger known findings of other properties, and from the TLC-enumerated grammars"]
+    # the executed path: every executed address is an instruction start of the front-to-back decoding; the rest of the
+    # instruction-level model (VmInstr: stack height and call frames per instruction) is recorded as conformance evidence
+    instr_conformance(run, ["calls", "closures", "tables", "deep", "errors"], 30 if tier != "thorough" else 200, seed, "C10-instr",
+                      lambda m: "not the start of an instruction" in str(m.get("why")))
     return run.finish("model_checking",
                       "every compiled program of the corpora is walked front to back by the TLA+ decoder state machine under TLC (one state per "
                       "instruction): known opcodes, complete operands, ends with Exit, jump targets and labels on instruction starts, valid "
